@@ -16,6 +16,8 @@ checks={
  "C11":("exploration","simhost","instrumented state machines of the three kinds park inside their methods so that overlapping calls are observed; index order, no call after Close, on-disk Open index", SIMHOST),
  "C12":("exploration","simhost","every accepted request is watched for exactly one terminal result, truthful Completed value, expiry in the fair phase; component model of the pending tables", SIMHOST+"; "+L0),
  "C13":("fault_enumeration","l0","CLAIMED IN PART: frame clause decided by enumerating bit flips/truncations of real frames; codec round trip and size bounds only on generated values", L0),
+ "C14":("fault_enumeration","l0","real SnapshotWriter/Reader (v1+v2, with/without compression) over SimFS: every single-bit flip of small files and streams is enumerated, larger ones sampled; truncations, lost/repeated pieces; the ChunkWriter->SnapshotValidator stream side; shrunk snapshots; I/O errors", L0),
+ "C15":("exploration","l0","real sender side splitting -> real transport.Chunk receiver over SimFS with tape-chosen perturbations (drop, swap, duplicate, restart, interleaved senders/indexes, corrupt bytes, foreign ids, removed replica, GC tick placement, hostile file names), incl. exhaustive single perturbations of a fixed 5-chunk stream", L0),
  "C16":("exploration","simhost","crashes land between any two file system operations of snapshot save/receive/commit/compact; what a crash leaves in the snapshot directory is marked, and after the real start-up path only the recorded snapshot may remain (unflagged, file present); the replica must restart and is held to its promises (C04 ledger)", SIMHOST),
  "C17":("exploration","simhost","after the fault phase a fair fault-free schedule must produce a leader, complete fresh requests and bring every member to the commit index within a stated tick budget", SIMHOST),
  "C18":("exploration","simhost","replicas whose own applied membership does not list them as voters must never be candidate/leader; explored over cluster shapes with non-voting members and witnesses", SIMHOST),
